@@ -1026,6 +1026,18 @@ class Parser:
                 "type_def",
                 "type_size",
                 "hexdump",
+                # methods of the generated class that the package itself calls: a field of
+                # that name would take the method's place
+                "to_dict",
+                "to_json",
+                "from_dict",
+                "from_json",
+                "copy",
+                "pretty_print",
+                "from_random",
+                "get_field_raw",
+                "from_buffer",
+                "from_buffer_copy",
             )
 
             for fname, fstr in fields.items():
